@@ -2,7 +2,7 @@
 # usage: mutmatrix.sh "C01 C04 ..."  -> runs every seeded change of each property against that property's check
 out=/tmp/mutmatrix.log
 for p in $1; do
-  for m in /verif/seeded/${p}_m*; do
+  for m in /verif/seeded/${p}_${2:-m}*; do
     id=$(basename $m)
     /verif/tools/mutrun.sh $id $p >> $out 2>&1
   done
